@@ -222,6 +222,13 @@ func (fv *FV) evalExpr(st *State, e ast.Expr) Term {
 			fv.abort(x.Pos(), "type switch guard outside switch")
 		}
 		t, ok := fv.typeAssert(st, v, fv.info.TypeOf(x.Type), x.Pos())
+		for _, u := range fv.fc.Unreachable {
+			if strings.Contains(exprStr(fv, x), u) {
+				fv.note("type assertion assumed to succeed by contract: " + exprStr(fv, x))
+				st.assume(ok)
+				return t
+			}
+		}
 		fv.assert(st, "type-assert", ok, x.Pos(), "unchecked type assertion "+exprStr(fv, x))
 		return t
 	case *ast.KeyValueExpr:
@@ -518,12 +525,23 @@ func (fv *FV) box(st *State, v Term, from types.Type, to *Sort, pos token.Pos) T
 		if _, ptr := fv.ss.RefTarget(to); ptr != nil && ptr == v.Sort {
 			return Term{sx("refof_"+to.Name, v.S), to}
 		}
+		if v.Sort.Kind == KOpaque && from != nil {
+			if _, isTP := types.Unalias(from).(*types.TypeParam); !isTP {
+				if _, isI := from.Underlying().(*types.Interface); isI {
+					if tgt, _ := fv.ss.RefTarget(v.Sort); tgt == nil {
+						// interface value converted to another interface type: dynamic type and value are preserved
+						return Term{sx(fv.ss.IConvFn(v.Sort, to), v.S), to}
+					}
+				}
+			}
+		}
 		// deterministic injection into the opaque sort
 		fn, _ := fv.ss.BoxFn(v.Sort, to, from)
 		r := Term{sx(fn, v.S), to}
 		if v.Sort.Kind == KPtr || v.Sort.Kind == KStruct {
 			st.assume(tNot(tEq(r, Term{fv.ss.Zero(to), to})))
 		}
+		fv.boxedFrom[r.S] = boxInfo{v, from}
 		return r
 	case KFn:
 		return v
